@@ -98,6 +98,10 @@ class IdentityEliminationPass(ir.passes.InPlacePass):
             input_value.is_graph_input() or input_value.is_initializer()
         ):
             return False
+        if output_is_graph_output and input_value.is_graph_output():
+            # Both are outputs: eliminating the Identity would list the same value twice
+            # (rejected for functions) and drop the name of one of the outputs.
+            return False
         if output_is_graph_output:
             producer = input_value.producer()
             if producer is None or producer.graph is not graph_like:
